@@ -471,6 +471,12 @@ impl rustc_driver::Callbacks for Cb {
             let body: &mir::Body<'tcx> = match kind {
                 DefKind::Fn | DefKind::AssocFn | DefKind::Closure => tcx.optimized_mir(did),
                 DefKind::Static { .. } => tcx.mir_for_ctfe(did),
+                DefKind::Const { .. } | DefKind::AssocConst { .. } => {
+                    if tcx.generics_of(did).requires_monomorphization(tcx) {
+                        continue;
+                    }
+                    tcx.mir_for_ctfe(did)
+                }
                 _ => continue,
             };
             for (pi, pb) in tcx.promoted_mir(did).iter_enumerated() {
